@@ -154,7 +154,7 @@ def t_cpp_define_syntax(facts, res, tier):
         if n.get("k") == "struct":
             for f in n.get("fields", []):
                 if f.get("name") == "define_regex":
-                    for c in walk(f["value"]) if isinstance(f.get("value"), dict) else []:
+                    for c in walk(f.get("e", f.get("value"))) if isinstance(f.get("e", f.get("value")), dict) else []:
                         if c.get("k") == "lit" and c.get("ty") == "str":
                             pat = c["v"]
                             node = c
@@ -1075,3 +1075,52 @@ def t_cpp_template(facts, res, tier):
                              "reads `$n_var` as a group that does not exist and substitutes nothing" % t)
     if n_sites == 0:
         raise AnchorMissing("no `$`-reference template found in process()")
+
+
+# ----------------------------------------------------------------------------- C06 (the location triple travels together)
+
+
+@rule("T-LOC-TRIPLE", floor=3,
+      text="an error whose file name and line come from an entry of the line map also takes its `included from` part from that entry: no "
+           "Error::Syntax / Error::Compiler literal fills `filename`/`line` from `mapped_lines[..]` (directly or through locals) and "
+           "`included_in` with a literal None - except the fall-back for an empty map")
+def t_loc_triple(facts, res, tier):
+    n_sites = 0
+    for fn in facts.fns:
+        if not fn["file"].endswith(("/compile.rs", "/error.rs")):
+            continue
+        # locals assigned from mapped_lines[..]
+        from_map = set()
+        for n in walk(fn["body"]):
+            if n.get("k") in ("assign", "let"):
+                rhs = n.get("r") if n.get("k") == "assign" else n.get("init")
+                if rhs is not None and "mapped_lines" in norm(rhs):
+                    if n.get("k") == "assign":
+                        r = root_name(n["l"])
+                        if r:
+                            from_map.add(r)
+                    else:
+                        from_map |= pat_names(n.get("pat"))
+        for n in walk(fn["body"]):
+            if n.get("k") != "struct":
+                continue
+            name = "::".join(n.get("segs", [])) if n.get("segs") else n.get("name", "")
+            flds = {f.get("name"): f.get("e", f.get("value")) for f in n.get("fields", [])}
+            if "included_in" not in flds or "filename" not in flds:
+                continue
+            fv = flds["filename"]
+            ftxt = norm(fv) if isinstance(fv, dict) else str(fv)
+            uses_map = "mapped_lines" in ftxt or (isinstance(fv, dict) and any(root_name(x) in from_map for x in walk(fv) if x.get("k") == "path"))
+            if not uses_map:
+                continue
+            n_sites += 1
+            key = "T-LOC-TRIPLE:%s:%d" % (fn["name"], n_sites)
+            res.inst(key, True, {"where": facts.where(fn, n)})
+            iv = flds["included_in"]
+            itxt = norm(iv) if isinstance(iv, dict) else str(iv)
+            if itxt == "None":
+                res.fail("T-LOC-TRIPLE:%s:included_in-none" % fn["name"], facts.where(fn, n),
+                         "%s reports an error with the file name and line of a line-map entry but `included_in: None`: for a defect inside an included file "
+                         "the including file and line are lost (only this kind of error loses them)" % fn["name"])
+    if n_sites == 0:
+        raise AnchorMissing("no error literal built from the line map found")
